@@ -205,3 +205,27 @@ Fixpoint sortv (j : json) : json :=
 
 Definition json_equiv (a b : json) : bool := json_eqb (sortv a) (sortv b).
 Definition obj_equiv (a b : obj) : bool := json_equiv (JObj a) (JObj b).
+
+(* ---- atomicity of failure (C12): a list failing at the k-th patch yields no document ---- *)
+
+Lemma apply_patches_app doc ps1 ps2 :
+  apply_patches doc (ps1 ++ ps2)%list =
+  match apply_patches doc ps1 with Some d => apply_patches d ps2 | None => None end.
+Proof.
+  revert doc. induction ps1 as [|p ps1 IH]; intros doc; cbn; [reflexivity|].
+  destruct (apply_patch doc p); [apply IH|reflexivity].
+Qed.
+
+Lemma apply_patches_fails_at doc ps1 p ps2 d :
+  apply_patches doc ps1 = Some d -> apply_patch d p = None ->
+  apply_patches doc (ps1 ++ p :: ps2)%list = None.
+Proof. intros H1 H2. rewrite apply_patches_app, H1. cbn. now rewrite H2. Qed.
+
+Lemma apply_patches_is_fold doc ps :
+  apply_patches doc ps =
+  fold_left (fun acc p => match acc with Some d => apply_patch d p | None => None end) ps (Some doc).
+Proof.
+  revert doc. induction ps as [|p ps IH]; intros doc; cbn; [reflexivity|].
+  destruct (apply_patch doc p) as [d|]; [apply IH|].
+  clear. induction ps; cbn; auto.
+Qed.
